@@ -174,7 +174,9 @@ func c17Build(key string, row c17Row, onCmd bool, wide bool, posVariant int, pat
 	if row.wide {
 		u.Choices = []string{"trace", "debug", "info", "notice", "warning", "error", "fatal", "panic-now"}
 	}
-	if onCmd {
+	bareCmd := posVariant == 3 // the active command has no option at all, only a described positional with a long name
+	optsOnCmd := onCmd && !bareCmd
+	if optsOnCmd {
 		top.Opts = []*decl.Opt{first}
 		cmd.Opts = []*decl.Opt{{Field: "C", Long: "copt", Type: decl.TBool, Desc: c17Desc("Cz", []int{9}, 0, 0)}, u}
 		descs["Cz"] = cmd.Opts[0].Desc
@@ -192,6 +194,9 @@ func c17Build(key string, row c17Row, onCmd bool, wide bool, posVariant int, pat
 		name := "posarg"
 		if posVariant == 2 {
 			name = "pösärgé"
+		}
+		if bareCmd {
+			name = "a-positional-argument-with-a-rather-long-name"
 		}
 		descs["Pz"] = c17Desc("Pz", pat, dscript, lf)
 		pa := &decl.PosArg{Field: "A", Name: name, Type: decl.TString, Desc: descs["Pz"]}
@@ -260,7 +265,7 @@ func init() {
 		ri := c.Choose(len(rows))
 		onCmd := c.Bool()
 		wide := c.Bool()
-		posVariant := c.Choose(3)
+		posVariant := c.Choose(4) // 3: on an active command without any option (the row under test stays on the parser)
 		npat := len(c17Patterns)
 		if !c.Thorough {
 			npat = 8
@@ -270,6 +275,9 @@ func init() {
 		pat := c17Patterns[pi]
 		if !c.Thorough && dscript >= 2 && posVariant != 0 {
 			c.Skip() // quick: the 3- and 4-byte description scripts go without a described positional
+		}
+		if posVariant == 3 && (!onCmd || dscript != 0) {
+			c.Skip()
 		}
 		lf := 0
 		if len(pat) >= 2 {
@@ -440,7 +448,7 @@ func init() {
 		Body:       body,
 		Setup:      c17Setup,
 		Rule: "row under test: long name of 0/1/5/20 characters in {ASCII, 2-byte, 3-byte} script x short name {none, ASCII, é} x value name {none, ASCII, non-ASCII} x choices?, plus rows whose argument is optional (with and without value name), plus every named row inside a group with a long namespace, alone, nested in a hidden group, nested in a second namespaced group, and a row with eight long choices (column beyond 64), last of its block, on the parser or on an active command (indented); the parser lists two commands, one described and with a multi-byte name " +
-			"x neighbour row {widest of all, 1-character} x described positional {none, ASCII name, non-ASCII name} x description = marker word + word-length pattern (8 quick / 16 thorough patterns over lengths 1,5,9,10,11,25,40) in {ASCII, 2-byte, 3-byte, 4-byte (non-BMP)} script (quick: the last two without a described positional) x embedded line break {none, after marker, after first word} or two consecutive blanks {after marker, after first word; ASCII descriptions} " +
+			"x neighbour row {widest of all, 1-character} x described positional {none, ASCII name, non-ASCII name, a long name on an active command that has no options} x description = marker word + word-length pattern (8 quick / 16 thorough patterns over lengths 1,5,9,10,11,25,40) in {ASCII, 2-byte, 3-byte, 4-byte (non-BMP)} script (quick: the last two without a described positional) x embedded line break {none, after marker, after first word} or two consecutive blanks {after marker, after first word; ASCII descriptions} " +
 			"x every terminal width 1..100 (quick) / 1..300 (thorough), visited from the widest down within one process, set with TIOCSWINSZ on a real pty whose slave is fd 0 (the library's own ioctl reads it); oracle: no panic; all descriptions (found through their marker words) start in one character column; " +
 			"every continuation line is exactly that many blanks + text; all lines valid UTF-8; joining hyphen breaks gives back the original word sequence; no description line longer than the width while width - column >= 10; distinct = distinct (column, width asserted?, script, line count)",
 		Assumptions:  []string{"columns are counted in characters (East-Asian display width is not modelled)", "descriptions contain no hyphens and no empty lines"},
